@@ -228,3 +228,181 @@ def run_property(kind, doc, ops):
         return {'seen': seen, 'reloaded': reloaded, 'lost': seen != reloaded, 'trace': trace}
     finally:
         if not ok: s.cleanup()
+
+
+# ------------------------------------------------------------------------------------------------ several owners: 2 objects x 2 Json attributes
+# slot i = (object i // 2, attribute j1 / j2).  Extra operations:
+#   {'s': i, 'p': path, 'm': <method>, 'a': args}                              an operation inside slot i
+#   {'m': 'copy', 'src': i, 'sp': path, 'dst': j, 'dp': path, 'how': [...]}    x = slot_i[sp]; slot_j[dp].<store>(x)   (x is passed as it is: a tracked value)
+#   {'m': 'commit'} | {'m': 'flush'} | {'m': 'newsession'}
+# how: ['setl', i] ['append'] ['insert', i] ['extend', aslist] ['iadd'] ['setd', k] ['update', k] ['setdefault', k] ['ior', k] ['embed', k, k2]
+
+_wenv = {}
+
+def wenv():
+    if not _wenv:
+        from pony import orm
+        db = orm.Database('sqlite', ':memory:')
+        class W(db.Entity):
+            j1 = orm.Optional(orm.Json)
+            j2 = orm.Optional(orm.Json)
+        db.generate_mapping(create_tables=True)
+        _wenv.update(db=db, W=W, orm=orm)
+    return _wenv
+
+
+def store(c, how, x):
+    k = how[0]
+    if k == 'setl': c[how[1]] = x
+    elif k == 'append': c.append(x)
+    elif k == 'insert': c.insert(how[1], x)
+    elif k == 'extend': c.extend([x] if how[1] else (x,))
+    elif k == 'iadd': operator.iadd(c, [x])
+    elif k == 'setd': c[how[1]] = x
+    elif k == 'update': c.update({how[1]: x})
+    elif k == 'setdefault': c.setdefault(how[1], x)
+    elif k == 'ior': operator.ior(c, {how[1]: x})
+    elif k == 'embed': c[how[1]] = {how[2]: [x]}
+    else: raise AssertionError(how)
+
+
+def stored_at(dp, how):
+    """path (in the receiving slot) of the value a copy stored"""
+    k = how[0]
+    if k in ('setl', 'insert'): return dp + [how[1]]
+    if k in ('append', 'extend', 'iadd'): return dp + [-1]
+    if k == 'embed': return dp + [how[1], how[2], 0]
+    return dp + [how[1]]
+
+
+def plain_wstep(values, op):
+    """the same operation on plain Python values with copy-on-store (reference semantics of the model)"""
+    try:
+        if op['m'] == 'copy':
+            x = copy.deepcopy(navigate(values[op['src']], op['sp']))
+            store(navigate(values[op['dst']], op['dp']), op['how'], x)
+        elif 's' in op:
+            apply_op(navigate(values[op['s']], op['p']), op['m'], op['a'])
+        return True
+    except EXPECTED_ERRORS:
+        return False
+
+
+class World(object):
+    NSLOTS = 4
+    def __init__(self, docs):
+        e = wenv()
+        self.orm, self.W, self.db = e['orm'], e['W'], e['db']
+        self.attrs = [self.W.j1, self.W.j2]
+        with self.orm.db_session:
+            objs = [self.W(j1=copy.deepcopy(docs[0]), j2=copy.deepcopy(docs[1])), self.W(j1=copy.deepcopy(docs[2]), j2=copy.deepcopy(docs[3]))]
+            self.orm.commit()
+            self.pks = [o.id for o in objs]
+        self.sess = 0
+        self.cm = None
+        self.enter()
+    def enter(self):
+        self.cm = self.orm.db_session(); self.cm.__enter__()
+        self.objs = [self.W[pk] for pk in self.pks]
+    def leave(self):
+        if self.cm is not None:
+            cm, self.cm = self.cm, None
+            cm.__exit__(None, None, None)
+    def abort(self):
+        if self.cm is not None:
+            cm, self.cm = self.cm, None
+            try: self.orm.rollback()
+            finally: cm.__exit__(None, None, None)
+    def slot(self, i): return self.objs[i // 2], self.attrs[i % 2]
+    def value(self, i):
+        obj, attr = self.slot(i)
+        return attr.__get__(obj)
+    def observe(self, i):
+        from pony.orm.ormtypes import TrackedValue
+        owners = {}
+        for j in range(self.NSLOTS):
+            o, a = self.slot(j); owners[(id(o), id(a))] = j
+        def tag(c):
+            if isinstance(c, TrackedValue):
+                o = c.obj_ref()
+                j = owners.get((id(o), id(c.attr)))
+                return [self.sess, j] if j is not None else [999, 999]
+            return None
+        def go(c):
+            if isinstance(c, dict): return ['D', tag(c), [[k, go(v)] for k, v in c.items()]]
+            if isinstance(c, (list, tuple)): return ['L', tag(c), [go(v) for v in c]]
+            return c
+        return go(self.value(i))
+    def dirty(self, i):
+        obj, attr = self.slot(i)
+        w = obj._wbits_
+        return bool(w and (w & obj._bits_[attr]))
+    def stored(self, i):
+        con = self.db._get_cache().connection or self.db.get_connection()
+        text = con.execute('select %s from W where id = ?' % ('j1', 'j2')[i % 2], (self.pks[i // 2],)).fetchone()[0]
+        return json.loads(text, object_pairs_hook=lambda kv: ['D', None, [[k, v] for k, v in kv]])
+    def state(self):
+        return [{'root': self.observe(i), 'dirty': self.dirty(i), 'db': self.stored(i)} for i in range(self.NSLOTS)]
+    def step(self, op):
+        m = op['m']
+        if m == 'commit': self.orm.commit(); return None
+        if m == 'flush': self.orm.flush(); return None
+        if m == 'newsession': self.leave(); self.sess += 1; self.enter(); return None
+        try:
+            if m == 'copy':
+                x = navigate(self.value(op['src']), op['sp'])
+                store(navigate(self.value(op['dst']), op['dp']), op['how'], x)
+            else:
+                apply_op(navigate(self.value(op['s']), op['p']), m, op['a'])
+            return None
+        except EXPECTED_ERRORS as e:
+            return type(e).__name__
+    def plain(self):
+        return [untag(self.observe(i)) for i in range(self.NSLOTS)]
+    def finish(self):
+        self.leave()
+        with self.orm.db_session:
+            objs = [self.W[pk] for pk in self.pks]
+            out = [untag(observe(None, None, self.attrs[i % 2].__get__(objs[i // 2]), None)) for i in range(self.NSLOTS)]
+        self.cleanup()
+        return out
+    def cleanup(self):
+        self.abort()
+        with self.orm.db_session:
+            for pk in self.pks: self.W[pk].delete()
+
+
+def run_wtrace(docs, ops):
+    w = World(docs)
+    try:
+        out = []
+        for op in ops:
+            err = w.step(op)
+            out.append({'slots': w.state(), 'err': err})
+        return out
+    finally:
+        w.cleanup()
+
+
+def run_wproperty(docs, ops):
+    """property oracle for several owners: (a) an operation through slot j never changes the write bit or the value of another slot;
+    (b) what every slot shows at the end is what a fresh session reloads"""
+    w = World(docs)
+    ok = False
+    try:
+        foreign = None
+        for n, op in enumerate(ops):
+            before = w.state() if op['m'] not in ('commit', 'flush', 'newsession') else None
+            w.step(op)
+            if before is not None:
+                after = w.state()
+                mine = op['dst'] if op['m'] == 'copy' else op['s']
+                for i in range(w.NSLOTS):
+                    if i != mine and (after[i]['dirty'] != before[i]['dirty'] or untag(after[i]['root']) != untag(before[i]['root'])) and foreign is None:
+                        foreign = {'step': n, 'slot': i, 'through': mine}
+        seen = w.plain()
+        reloaded = w.finish()
+        ok = True
+        return {'seen': seen, 'reloaded': reloaded, 'lost': seen != reloaded, 'foreign': foreign}
+    finally:
+        if not ok: w.cleanup()
